@@ -112,3 +112,61 @@ Qed.
    glue when the signature has the algorithm's length *)
 Lemma verify_ignores_curve : verify_decide (KEc 256) (bytes_of_string Gen.Gen_jose.jose_ES384_str) 96 = Ok tt.
 Proof. vm_compute. reflexivity. Qed.
+
+(* ------------------------------------------------------------------ ECDH-ES header -> KDF plumbing *)
+(* decrypt uses (apu, apv) exactly as given, in that order, whatever the algorithm of the family *)
+Lemma ecdh_derive_input_spec h ks id u v n :
+  ecdh_derive_input h ks = Ok (id, u, v, n) ->
+  u = eh_apu h /\ v = eh_apv h /\
+  ((eh_alg h = name_ECDH_ES /\ id = eh_enc h /\ n = ks) \/
+   (id = eh_alg h /\ ((eh_alg h = name_ECDH_ES_A128KW /\ n = 16) \/ (eh_alg h = name_ECDH_ES_A192KW /\ n = 24) \/
+                      (eh_alg h = name_ECDH_ES_A256KW /\ n = 32)))).
+Proof.
+  unfold ecdh_derive_input.
+  destruct (bytes_eqb (eh_alg h) name_ECDH_ES) eqn:E0.
+  { apply bytes_eqb_eq in E0. intro H; inversion H. split; [reflexivity|]. split; [reflexivity|]. left. auto. }
+  destruct (bytes_eqb (eh_alg h) name_ECDH_ES_A128KW) eqn:E1.
+  { apply bytes_eqb_eq in E1. intro H; inversion H. split; [reflexivity|]. split; [reflexivity|]. right. split; [reflexivity|]. left. auto. }
+  destruct (bytes_eqb (eh_alg h) name_ECDH_ES_A192KW) eqn:E2.
+  { apply bytes_eqb_eq in E2. intro H; inversion H. split; [reflexivity|]. split; [reflexivity|]. right. split; [reflexivity|]. right. left. auto. }
+  destruct (bytes_eqb (eh_alg h) name_ECDH_ES_A256KW) eqn:E3; [|discriminate].
+  apply bytes_eqb_eq in E3. intro H; inversion H. split; [reflexivity|]. split; [reflexivity|]. right. split; [reflexivity|]. right. right. auto.
+Qed.
+
+Lemma ecdh_family_accepted h ks :
+  (exists p, ecdh_derive_input h ks = Ok p) <->
+  (eh_alg h = name_ECDH_ES \/ eh_alg h = name_ECDH_ES_A128KW \/ eh_alg h = name_ECDH_ES_A192KW \/ eh_alg h = name_ECDH_ES_A256KW).
+Proof.
+  unfold ecdh_derive_input. split.
+  - intros (p & H).
+    destruct (bytes_eqb (eh_alg h) name_ECDH_ES) eqn:E0; [apply bytes_eqb_eq in E0; auto|].
+    destruct (bytes_eqb (eh_alg h) name_ECDH_ES_A128KW) eqn:E1; [apply bytes_eqb_eq in E1; auto|].
+    destruct (bytes_eqb (eh_alg h) name_ECDH_ES_A192KW) eqn:E2; [apply bytes_eqb_eq in E2; auto|].
+    destruct (bytes_eqb (eh_alg h) name_ECDH_ES_A256KW) eqn:E3; [apply bytes_eqb_eq in E3; auto|discriminate].
+  - intros [E|[E|[E|E]]]; rewrite E; vm_compute bytes_eqb; eauto.
+Qed.
+
+(* two headers of the same algorithm / enc whose (apu, apv) differ give different OtherInfo: the
+   derived key depends on both values, each in its own length-prefixed field *)
+Lemma ecdh_otherinfo_injective alg enc u v u' v' ks oi :
+  lenN alg < 4294967296 -> lenN enc < 4294967296 ->
+  lenN u < 4294967296 -> lenN v < 4294967296 -> lenN u' < 4294967296 -> lenN v' < 4294967296 -> ks < 536870912 ->
+  ecdh_otherinfo {| eh_alg := alg; eh_enc := enc; eh_apu := u; eh_apv := v |} ks = Ok oi ->
+  ecdh_otherinfo {| eh_alg := alg; eh_enc := enc; eh_apu := u'; eh_apv := v' |} ks = Ok oi ->
+  u = u' /\ v = v'.
+Proof.
+  intros La Le Lu Lv Lu' Lv' Lk H1 H2. unfold ecdh_otherinfo in *.
+  destruct (ecdh_derive_input {| eh_alg := alg; eh_enc := enc; eh_apu := u; eh_apv := v |} ks) as [[[[id a] b] n]| |] eqn:D1;
+    cbn [bind] in H1; try discriminate.
+  destruct (ecdh_derive_input {| eh_alg := alg; eh_enc := enc; eh_apu := u'; eh_apv := v' |} ks) as [[[[id' a'] b'] n']| |] eqn:D2;
+    cbn [bind] in H2; try discriminate.
+  inversion H1 as [K1]. inversion H2 as [K2]. rewrite <- K2 in K1.
+  pose proof (ecdh_derive_input_spec _ _ _ _ _ _ D1) as (-> & -> & S1).
+  pose proof (ecdh_derive_input_spec _ _ _ _ _ _ D2) as (-> & -> & S2).
+  cbn [eh_alg eh_enc eh_apu eh_apv] in *.
+  assert (Bn : n < 536870912 /\ n' < 536870912 /\ lenN id < 4294967296 /\ lenN id' < 4294967296).
+  { destruct S1 as [(_ & -> & ->)|(-> & [(_ & ->)|[(_ & ->)|(_ & ->)]])];
+    destruct S2 as [(_ & -> & ->)|(-> & [(_ & ->)|[(_ & ->)|(_ & ->)]])]; repeat split; lia. }
+  destruct Bn as (B1 & B2 & B3 & B4).
+  apply kdf_info_injective in K1; try assumption. destruct K1 as (_ & -> & -> & _). auto.
+Qed.
